@@ -219,7 +219,10 @@ def main() -> int:
         conn.send({"digest": c11.digest({k: v for k, v in out.items() if k != "mutated"} if call[0] != "decompile" else out)})
         conn.close()
     for c in calls:
-        solo[c] = c11.run_isolated(_solo_child, (c,))["digest"]
+        sr = c11.run_isolated(_solo_child, (c,))
+        if "digest" not in sr:
+            raise common.MachineryError(f"solo run of {c} gave no result: {sr}")
+        solo[c] = sr["digest"]
     plans = []
     n_sched = 120 if not thorough else 1500
     n_free = 30 if not thorough else 300
@@ -241,7 +244,13 @@ def main() -> int:
     runs = pmap(run_plan, plans, limit=120.0, chunk=1)
     cases, meta = [], []
     stuck = 0
+    died_once = 0
     for p, r in zip(plans, runs):
+        if r.get("_died_twice"):
+            rep.violation("threads:process-died", {"plan": p[0], "seed": p[1], "mode": p[2], "how": r.get("how")})
+            continue
+        if r.get("_retried_after_death"):
+            died_once += 1
         if r.get("_error"):
             raise common.MachineryError("threaded run failed: " + str(r)[:300])
         if r.get("_timeout") or r.get("stuck"):
@@ -279,6 +288,7 @@ def main() -> int:
         raise common.MachineryError("C12 self-test: a raising / differing threaded call was accepted")
     rep.extra["selftest_corrupted_rejected"] = len(muts)
     rep.extra["runs_without_answer_in_time"] = stuck
+    rep.extra["runs_repeated_after_the_process_died_once"] = died_once
     rep.extra["schedules"] = {"deterministic": n_sched, "free_running": n_free,
                               "mean_yield_points": round(sum(r["points"] for _, r in meta) / max(1, len(meta)), 1),
                               "mean_switches": round(sum(r["switches"] for _, r in meta) / max(1, len(meta)), 1)}
